@@ -98,6 +98,11 @@ def profile(draw, allow_zero=False, max_n=60):
     h = np.unique(h)
     while len(h) < 2:
         h = np.append(h, h[-1] + (hi - lo) * 0.1 + 1e-6)
+    if draw(st.integers(0, 5)) == 0 and len(h) >= 3:
+        # two layers tabulated at exactly the same height (e.g. two wind components) are still two layers
+        k_ = int(rng.integers(0, len(h) - 1))
+        h = np.sort(np.append(h, [h[k_]] * int(rng.integers(1, 3))))
+        kind = kind + "_dup"
     N = len(h)
     p = np.exp(rng.uniform(math.log(1e-16), math.log(1e-13), size=N))
     if allow_zero and draw(st.booleans()):
@@ -195,12 +200,15 @@ def og_body(ctx, case):
     tot = float(p.sum())
     ctx.close(float(cl.sum()), tot, 1e-12, "optimal_grouping conserves total Cn2", scale=tot, name="OG total cn2")
     ctx.require(all(float(x) in set(h.tolist()) for x in hl), "optimal_grouping: returned heights are not input heights")
-    ctx.require(bool(np.all(np.diff(hl) > 0)) if L > 1 else True, "optimal_grouping: heights not strictly increasing")
+    dup = len(np.unique(h)) < len(h)
+    ctx.require(bool(np.all(np.diff(hl) > 0) or (dup and np.all(np.diff(hl) >= 0))) if L > 1 else True, "optimal_grouping: heights not increasing")
     # recover the contiguous grouping from cumulative strengths
     cs, cg = np.cumsum(p), np.cumsum(cl)
     bounds = [0]
     for i in range(L):
-        k = int(np.argmin(np.abs(cs - cg[i])))
+        cand = np.nonzero(np.abs(cs - cg[i]) <= 1e-12 * tot)[0]
+        cand = cand[cand + 1 > bounds[-1]]
+        k = int(cand[0]) if len(cand) else int(np.argmin(np.abs(cs - cg[i])))
         ctx.require(abs(cs[k] - cg[i]) <= 1e-12 * tot and k + 1 > bounds[-1], "optimal_grouping: strengths are not sums over contiguous, non-empty groups of input layers")
         bounds.append(k + 1)
     ctx.require(bounds[-1] == N, "optimal_grouping: a layer of the input was dropped")
